@@ -134,6 +134,16 @@ PROPS = {
                                         'a block is identified by the hash the consumer\'s ValidateBlockProposal / ValidateBlockCommitment bind (two blocks with one hash are the consumer\'s collision)',
                                         'the model\'s validProposal is the harness consumer: rejects the blocks listed as bad for this member, checks height and hash'],
     },
+    'C05': {
+        'engines': [{'name': 'live', 'quick_args': ['-n', '40'], 'thorough_args': ['-n', '1500']}],
+        'corr_modules': ['Term'],
+        'trusted_base': ['theorems in coq/props/C05.v about coq/theories/World.v and Term.v (proofs in LiveWorld.v, Live.v, Own.v, Accept.v)'],
+        'assumptions': COMMON_ASSUME + ['PARTIAL: proved is the good-view half (members of quorum weight that joined a view commit its proposal when their PREPAREs, then COMMITs, are delivered with no election trigger in between) and the acceptance steps leading into it; view synchronisation through the base*2^view timeouts is NOT proved (the model has no clock) and is only searched for stalls by the live engine',
+                                        'unforgeability discipline, common committee and instance (as C01); no bound on the Byzantine weight is needed beyond the premise that the correct deciding members weigh a quorum',
+                                        'the quorum of joined members has at least three distinct members (so that every member hears a PREPARE from a non-leader other than itself)',
+                                        'live engine: block sync of laggards is the consumer\'s job and is performed by the harness at stabilisation; timely schedule = everything pending is delivered before the lowest-view deciding members time out together'],
+        'notes': ['partial: see the header of coq/props/C05.v for the exact split'],
+    },
     'C11': {
         'engines': [{'name': 'world', 'quick_args': ['-n', '60'], 'thorough_args': ['-n', '1200']}],
         'corr_modules': ['Term'],
